@@ -1,5 +1,7 @@
 package props
 
+import "runtime"
+
 type discard struct{}
 
 func (discard) Write(p []byte) (int, error) { return len(p), nil }
@@ -15,3 +17,5 @@ func trunc(s string, n int) string {
 	}
 	return s
 }
+
+func setMaxProcs(n int) int { return runtime.GOMAXPROCS(n) }
